@@ -87,6 +87,8 @@ pub struct GenOpts {
   pub counter: Option<bool>,
   /// biaxial crystal cut away from the principal axes (θ 20…75°, φ ∈ {0, 90°}), poled
   pub tilted_biaxial: bool,
+  /// never poled (angle phase matching); the caller may add an explicit grating afterwards
+  pub unpoled: bool,
 }
 
 /// wavelengths (pump, signal) inside the window, signal non-degenerate unless `deg`
@@ -116,7 +118,7 @@ pub fn gen_setup(r: &mut Rng, o: &GenOpts) -> Option<SPDC> {
   let (lp, ls) = gen_wavelengths(r, &crystal, deg)?;
   let li = ls * lp / (ls - lp);
   let l = if o.plane_wave { r.log_range(0.5e-3, 20e-3) } else { r.log_range(0.3e-3, 30e-3) };
-  let poled = r.coin() || o.counter.is_some() || o.tilted_biaxial;
+  let poled = (r.coin() || o.counter.is_some() || o.tilted_biaxial) && !o.unpoled;
   let crystal_setup = CrystalSetup {
     crystal,
     pm_type,
@@ -160,7 +162,9 @@ pub fn gen_setup(r: &mut Rng, o: &GenOpts) -> Option<SPDC> {
   .into();
   let apod = if poled && !o.plane_wave { gen_apodization(r, l) } else { Apodization::Off };
   let pp = if poled {
-    let p = r.log_range(2e-6, 200e-6) * if r.coin() { 1.0 } else { -1.0 };
+    // QPM-like periods ≪ L, and (1/8) gratings comparable to or longer than the crystal: |Λ| = 0.1 L … 10 L
+    let mag = if !o.phase_matched && r.below(8) == 0 { l * r.log_range(0.1, 10.0) } else { r.log_range(2e-6, 200e-6) };
+    let p = mag * if r.coin() { 1.0 } else { -1.0 };
     PeriodicPoling::new(p * M, apod)
   } else {
     PeriodicPoling::Off
@@ -388,7 +392,10 @@ fn describe(spdc: &SPDC) -> String {
     ),
   };
   format!(
-    "crystal={} pm={} ctheta={:.10} cphi={:.10} L={:e} T={:.4} lp={:.9e} ls={:.9e} li={:.9e} phis={:.10} thetas={:.10} phii={:.10} thetai={:.10} ws={:e} wi={:e} wpx={:e} wpy={:e} z0s={:e} z0i={:e} period={} apod={} bw={:e} power={:e} deff={:e} thr={:e}",
+    "pols={}{}{} crystal={} pm={} ctheta={:.10} cphi={:.10} L={:e} T={:.4} lp={:.9e} ls={:.9e} li={:.9e} phis={:.10} thetas={:.10} phii={:.10} thetai={:.10} ws={:e} wi={:e} wpx={:e} wpy={:e} z0s={:e} z0i={:e} period={} apod={} bw={:e} power={:e} deff={:e} thr={:e}",
+    pol_char(spdc.pump.polarization()),
+    pol_char(spdc.signal.polarization()),
+    pol_char(spdc.idler.polarization()),
     cs.crystal,
     cs.pm_type,
     cs.theta.value_unsafe,
@@ -463,9 +470,9 @@ fn k_cases(ctx: &mut Ctx) {
       ),
     );
   }
-  let opts = GenOpts { plane_wave: false, phase_matched: false, counter: None, tilted_biaxial: false };
-  let opts_pm = GenOpts { plane_wave: false, phase_matched: true, counter: None, tilted_biaxial: false };
-  let opts_pw = GenOpts { plane_wave: true, phase_matched: true, counter: None, tilted_biaxial: false };
+  let opts = GenOpts { plane_wave: false, phase_matched: false, counter: None, tilted_biaxial: false, unpoled: false };
+  let opts_pm = GenOpts { plane_wave: false, phase_matched: true, counter: None, tilted_biaxial: false, unpoled: false };
+  let opts_pw = GenOpts { plane_wave: true, phase_matched: true, counter: None, tilted_biaxial: false, unpoled: false };
   let mut made = 0;
   let mut tries = 0;
   while made < ctx.n && tries < 20 * ctx.n + 100 {
@@ -693,8 +700,8 @@ fn pm_abs_c06(spdc: &SPDC, ws: f64, wi: f64, integ: Integrator) -> Option<f64> {
 /// the statement of C06 on the real code
 fn c06_cases(ctx: &mut Ctx) {
   let mut worst_e = 0.0f64;
-  let opts = GenOpts { plane_wave: false, phase_matched: false, counter: None, tilted_biaxial: false };
-  let opts_pm = GenOpts { plane_wave: false, phase_matched: true, counter: None, tilted_biaxial: false };
+  let opts = GenOpts { plane_wave: false, phase_matched: false, counter: None, tilted_biaxial: false, unpoled: false };
+  let opts_pm = GenOpts { plane_wave: false, phase_matched: true, counter: None, tilted_biaxial: false, unpoled: false };
   let mut made = 0;
   let mut tries = 0;
   while made < ctx.n && tries < 30 * ctx.n + 100 {
@@ -708,7 +715,55 @@ fn c06_cases(ctx: &mut Ctx) {
         continue;
       }
     };
+    let mut spdc = spdc;
+    // the PM label and the beams' own polarisations may disagree (set_polarization on one beam, or the label edited alone):
+    // well defined — all spectrum code reads the beams — and the exchange must carry the beams over unchanged
+    match ctx.rng.below(8) {
+      0 => {
+        let flip = |p: PolarizationType| if p == PolarizationType::Ordinary { PolarizationType::Extraordinary } else { PolarizationType::Ordinary };
+        if ctx.rng.coin() {
+          let p = flip(spdc.idler.polarization());
+          spdc.idler.set_polarization(p);
+        } else {
+          let p = flip(spdc.signal.polarization());
+          spdc.signal.set_polarization(p);
+        }
+        ctx.count("c06/label-polarisation-inconsistent/beam-flipped");
+      }
+      1 => {
+        let cur = spdc.crystal_setup.pm_type;
+        let other = *ctx.rng.pick(&PMTYPES);
+        if other != cur {
+          spdc.crystal_setup.pm_type = other;
+          ctx.count("c06/label-polarisation-inconsistent/label-edited");
+        }
+      }
+      _ => {}
+    }
+    if view(&spdc).map(|v| v.all_finite()) != Some(true) {
+      ctx.count("c06/setup-rejected");
+      continue;
+    }
     let swapped = spdc.clone().with_swapped_signal_idler();
+    // hand-built exchanged twin: beams and waist positions exchanged, label inverted, nothing else touched
+    {
+      let mut cs = spdc.crystal_setup.clone();
+      cs.pm_type = cs.pm_type.inverse();
+      let twin = SPDC::new(
+        cs,
+        spdc.idler.clone().as_beam().into(),
+        spdc.signal.clone().as_beam().into(),
+        spdc.pump.clone(),
+        spdc.pump_bandwidth,
+        spdc.pump_average_power,
+        spdc.pump_spectrum_threshold,
+        spdc.pp.clone(),
+        spdc.idler_waist_position,
+        spdc.signal_waist_position,
+        spdc.deff,
+      );
+      ctx.s("C06.swap_fields", twin == swapped, "swap/equals-hand-built-twin", &describe(&spdc));
+    }
     // Simpson (even and odd requests) and Gauss–Legendre; `divs` also sizes the Simpson sum used for the conditioning
     // estimate when the rule itself is Gauss–Legendre.  Requests ≥ 130 are left to C05/C07's 1-D predicates: JointSpectrum
     // evaluates the singles 2-D integral with the same rule, and its rayon reduction over 131² terms is not reproducible
@@ -1187,8 +1242,8 @@ fn range_route(ctx: &mut Ctx, spdc: &SPDC, scaled: &SPDC, f: f64, range: Frequen
 }
 
 fn c07_cases(ctx: &mut Ctx) {
-  let opts = GenOpts { plane_wave: false, phase_matched: false, counter: None, tilted_biaxial: false };
-  let opts_pm = GenOpts { plane_wave: false, phase_matched: true, counter: None, tilted_biaxial: false };
+  let opts = GenOpts { plane_wave: false, phase_matched: false, counter: None, tilted_biaxial: false, unpoled: false };
+  let opts_pm = GenOpts { plane_wave: false, phase_matched: true, counter: None, tilted_biaxial: false, unpoled: false };
   let mut made = 0;
   let mut tries = 0;
   let mut worst_lin = 0.0f64;
@@ -1203,6 +1258,21 @@ fn c07_cases(ctx: &mut Ctx) {
         continue;
       }
     };
+    let mut spdc = spdc;
+    // a quarter of the setups are NOT energy matched: the signal (or the idler) is retuned by a fraction of the pump's
+    // spectral width without recomputing the other beam, so ωs0 + ωi0 ≠ ωp — the envelope is centred on the pump
+    if ctx.rng.below(4) == 0 {
+      let sg = raw_w(fwhm_to_spectral_width(spdc.pump.vacuum_wavelength(), spdc.pump_bandwidth));
+      let dw = sg * ctx.rng.range(0.3, 2.0) * if ctx.rng.coin() { 1.0 } else { -1.0 };
+      if ctx.rng.coin() {
+        let f = spdc.signal.frequency() + w(dw);
+        spdc.signal.set_frequency(f);
+      } else {
+        let f = spdc.idler.frequency() + w(dw);
+        spdc.idler.set_frequency(f);
+      }
+      ctx.count("c07/not-energy-matched");
+    }
     let divs = *ctx.rng.pick(&[10usize, 20, 50, 21]);
     let is_gl = ctx.rng.below(6) == 0;
     let integ = if is_gl { Integrator::GaussLegendre { degree: *ctx.rng.pick(&[12usize, 40]) } } else { Integrator::Simpson { divs } };
@@ -1239,6 +1309,15 @@ fn c07_cases(ctx: &mut Ctx) {
         &format!("intensity={:.17e} omega={:.17e} span={:.17e} {}", a * a, om, span, desc),
       );
       ctx.k("pump_amp", &format!("{} {} {}", fl(om), fl(wp0), fl(bw.value_unsafe)), &fl(a));
+      // Gaussian: at ± one full span the intensity is (1/2)^4
+      let om2 = wp0 + sgn * span;
+      let a2 = pump_spectral_amplitude(w(om2), &spdc);
+      ctx.s(
+        "C07.envelope",
+        (a2 * a2 - 0.0625).abs() <= 0.5 * slack,
+        "envelope/gaussian-full-span",
+        &format!("intensity={:.17e} omega={:.17e} span={:.17e} {}", a2 * a2, om2, span, desc),
+      );
     }
 
     // ---- jsa_raw = envelope × phase-matching amplitude ; finite inside the window
@@ -1316,6 +1395,60 @@ fn c07_cases(ctx: &mut Ctx) {
         ctx.k("jsa_raw", &format!("{} {} {} {}", st, jsa_tokens(&spdc), divs, apod_table(&spdc, &nodes)), &out);
       }
       ctx.k("jsa", &format!("{} {} {}", st, jsa_tokens(&spdc), cx(sp.raw)), &format!("{} {}", cx(sp.jsa), fl(sp.jsi)));
+    }
+
+    // ---- each clause of the support box on its own, the other clauses satisfied and the envelope ABOVE the threshold
+    //      there: broadband pump (5 % of the wavelength) and threshold 0 or 1e-300, so that nothing but the box test can
+    //      produce the zero
+    {
+      let mut sb = spdc.clone();
+      sb.pump_bandwidth = 0.05 * spdc.pump.vacuum_wavelength();
+      sb.pump_spectrum_threshold = if ctx.rng.coin() { 0.0 } else { 1e-300 };
+      let s1 = sb.clone();
+      if let Some(jsb) = guard(move || s1.joint_spectrum(integ)) {
+        let u = |a: f64| a * wp0;
+        let clauses: Vec<(f64, f64, &str)> = vec![
+          (0.0, u(0.7), "ws-nonpositive"),
+          (-0.0, u(0.7), "ws-nonpositive"),
+          (-u(1e-3), u(0.7), "ws-nonpositive"),
+          (u(0.7), 0.0, "wi-nonpositive"),
+          (u(0.7), -u(ctx.rng.log_range(1e-9, 1e-2)), "wi-nonpositive"),
+          (next_up(wp0), u(0.2515), "ws-above-pump"),
+          (u(1.001), u(0.2515), "ws-above-pump"),
+          (u(0.2515), next_up(wp0), "wi-above-pump"),
+          (u(0.2515), u(1.001), "wi-above-pump"),
+          (u(0.3), u(ctx.rng.range(1.0001, 1.04)), "wi-above-pump"),
+          (u(0.9), u(0.1), "difference"),
+          (u(0.1), u(0.9), "difference"),
+        ];
+        for (ws, wi, clause) in clauses {
+          let alpha = pump_spectral_amplitude(w(ws) + w(wi), &sb);
+          if !(alpha >= sb.pump_spectrum_threshold && alpha > 0.0) {
+            ctx.count("c07/box-clause/envelope-underflowed");
+            continue;
+          }
+          let det = format!("clause={} alpha={:e} ws={:.17e} wi={:.17e} wp={:.17e} thr={:e} bw={:e} divs={} {}", clause, alpha, ws, wi, wp0, sb.pump_spectrum_threshold, sb.pump_bandwidth.value_unsafe, divs, desc);
+          match spectra(&jsb, &sb, ws, wi, integ) {
+            None => ctx.s("C07.zero", false, &format!("zero/clause/{}/panic", clause), &det),
+            Some(sp) => {
+              let z = sp.raw.re == 0.0 && sp.raw.im == 0.0 && sp.sraw == 0.0 && sp.jsa.re == 0.0 && sp.jsa.im == 0.0 && sp.jsi == 0.0 && sp.jsis == 0.0;
+              ctx.s("C07.zero", z, &format!("zero/clause/{}", clause), &format!("raw=({:e},{:e}) sraw={:e} jsi={:e} jsis={:e} {}", sp.raw.re, sp.raw.im, sp.sraw, sp.jsi, sp.jsis, det));
+            }
+          }
+        }
+        // count rates over a region that lies entirely off the support (idler above the pump frequency)
+        let reg = FrequencySpace::new((w(u(0.26)), w(u(0.30)), 2), (w(u(1.0005)), w(u(1.02)), 2));
+        let s1 = sb.clone();
+        if let Some((c1, c2, c3)) = guard(move || {
+          (
+            s1.counts_coincidences(reg, integ).value_unsafe,
+            s1.counts_singles_signal(reg, integ).value_unsafe,
+            s1.counts_singles_idler(reg, integ).value_unsafe,
+          )
+        }) {
+          ctx.s("C07.zero", c1 == 0.0 && c2 == 0.0 && c3 == 0.0, "zero/clause/rates-over-off-support-region", &format!("cc={:e} ss={:e} si={:e} thr={:e} {}", c1, c2, c3, sb.pump_spectrum_threshold, desc));
+        }
+      }
     }
 
     // ---- exact zeros off the support box (edges at ±1 ulp)
@@ -1573,7 +1706,16 @@ fn c07_cases(ctx: &mut Ctx) {
       two_source_hom(ctx, &spdc, &scaled, a, b, range, sinteg, &det);
       range_route(ctx, &spdc, &scaled, f, range, sinteg, &det);
       match r {
-        None => ctx.s("C07.linear", false, "linear/rates-panic", &det),
+        None => {
+          // counts_singles_idler builds JointSpectrum::new(swapped), which unwraps try_as_optimum of the EXCHANGED setup:
+          // where that optimum does not exist (C04/C17 territory) the rates are unavailable, not wrong
+          let sw = spdc.clone().with_swapped_signal_idler();
+          if guard(move || sw.joint_spectrum(sinteg)).is_none() {
+            ctx.count("c07/rates/exchanged-joint-spectrum-unavailable");
+          } else {
+            ctx.s("C07.linear", false, "linear/rates-panic", &det);
+          }
+        }
         Some((e1, e2, k1, k2, h1, h2, amax)) => {
           // σ⁴ (Schmidt) and |f|² sums (HOM) must stay inside the f64 range for both scales
           let c = f.sqrt();
@@ -1765,6 +1907,10 @@ fn walkoff_independent(spdc: &SPDC) -> Option<f64> {
 /// they still take part in the peak clause, which carries the walk-off in closed form and is
 /// insensitive to diffraction (measured ≤ 3e-7 over the whole family).
 pub const C05_X_MAX: f64 = 0.04;
+/// max_depth values at which the unchanged tree's adaptive Simpson (always stopped by the depth at these amplitudes) still meets
+/// the 1e-3 clause with margin: measured worst |ratio − |sinc|| 2.5e-4 at depth 4, ≤ 3.2e-4 for 5…8; depth 3 (8 panels) is 2.4e-3
+/// off in the third lobe by plain discretisation error and is therefore outside what the statement can claim.
+pub const SHALLOW_DEPTHS: [usize; 5] = [4, 5, 6, 7, 8];
 pub const C05_DIFFRACTION_MAX: f64 = 1e-3;
 
 fn diffraction_param(spdc: &SPDC, v: &View) -> f64 {
@@ -1778,11 +1924,47 @@ fn diffraction_param(spdc: &SPDC, v: &View) -> f64 {
   beams.iter().map(|(om, n, w2)| v.l / ((n * om / c) * w2)).fold(0.0, f64::max)
 }
 
+
+/// secant search on the crystal angle for Δk_z = 0 at the centre frequencies with the setup's grating in place
+/// (collinear beams; waist positions re-optimised as `try_as_optimum` does)
+fn retune_crystal_theta(spdc: &SPDC) -> Option<SPDC> {
+  let ws0 = raw_w(spdc.signal.frequency());
+  let wi0 = raw_w(spdc.idler.frequency());
+  let f = |th: f64| {
+    let mut s = spdc.clone();
+    s.crystal_setup.theta = th * RAD;
+    half_dkz_l(&s, ws0, wi0)
+  };
+  let mut t0 = spdc.crystal_setup.theta.value_unsafe;
+  let mut t1 = t0 + if t0 > 0.8 { -1e-3 } else { 1e-3 };
+  let (mut f0, mut f1) = (f(t0)?, f(t1)?);
+  for _ in 0..12 {
+    if !(f0.is_finite() && f1.is_finite()) || f1 == f0 {
+      return None;
+    }
+    let t2 = t1 - f1 * (t1 - t0) / (f1 - f0);
+    if !(t2 > 0.01 && t2 < std::f64::consts::FRAC_PI_2 - 0.01) {
+      return None;
+    }
+    t0 = t1;
+    f0 = f1;
+    t1 = t2;
+    f1 = f(t1)?;
+    if f1.abs() < 1e-6 {
+      let mut s = spdc.clone();
+      s.crystal_setup.theta = t1 * RAD;
+      return guard(move || s.with_optimal_waist_positions());
+    }
+  }
+  None
+}
+
 fn c05_cases(ctx: &mut Ctx) {
-  let opts_co = GenOpts { plane_wave: true, phase_matched: true, counter: None, tilted_biaxial: false };
-  let opts_sb = GenOpts { plane_wave: true, phase_matched: true, counter: Some(true), tilted_biaxial: false };
-  let opts_ib = GenOpts { plane_wave: true, phase_matched: true, counter: Some(false), tilted_biaxial: false };
-  let opts_tb = GenOpts { plane_wave: true, phase_matched: true, counter: None, tilted_biaxial: true };
+  let opts_co = GenOpts { plane_wave: true, phase_matched: true, counter: None, tilted_biaxial: false, unpoled: false };
+  let opts_sb = GenOpts { plane_wave: true, phase_matched: true, counter: Some(true), tilted_biaxial: false, unpoled: false };
+  let opts_ib = GenOpts { plane_wave: true, phase_matched: true, counter: Some(false), tilted_biaxial: false, unpoled: false };
+  let opts_tb = GenOpts { plane_wave: true, phase_matched: true, counter: None, tilted_biaxial: true, unpoled: false };
+  let opts_lp = GenOpts { plane_wave: true, phase_matched: true, counter: None, tilted_biaxial: false, unpoled: true };
   let mut made = 0;
   let mut tries = 0;
   let mut worst_sinc = 0.0f64;
@@ -1790,19 +1972,38 @@ fn c05_cases(ctx: &mut Ctx) {
   while made < ctx.n && tries < 40 * ctx.n + 100 {
     tries += 1;
     // sub-families: co-propagating (5/8), counter-propagating in both orientations (1/8 each), biaxial tilted cut (1/8)
+    let long_period = tries % 8 == 7;
     let opts = match tries % 8 {
       1 => &opts_sb,
       3 => &opts_ib,
       5 => &opts_tb,
+      7 => &opts_lp,
       _ => &opts_co,
     };
-    let spdc = match gen_setup(&mut ctx.rng, opts) {
+    let mut spdc = match gen_setup(&mut ctx.rng, opts) {
       Some(s) => s,
       None => {
         ctx.count(&format!("c05/optimum-unavailable-or-rejected/{}", tries % 8));
         continue;
       }
     };
+    if long_period {
+      // an angle-phase-matched crystal with an explicit grating of either sign, |Λ| = 0.1 L … 10 L (not a QPM period):
+      // either the crystal angle is trimmed so that the grating brings the centre back to phase matching, or the grating
+      // simply shifts the phase-matched point along the detuning line (|Δk_z L/2| = π L/|Λ| at the centre, kept ≤ 8)
+      let l = spdc.crystal_setup.length.value_unsafe;
+      let lam = l * ctx.rng.log_range(0.1, 10.0) * if ctx.rng.coin() { 1.0 } else { -1.0 };
+      spdc.pp = PeriodicPoling::new(lam * M, Apodization::Off);
+      let trimmed = if ctx.rng.coin() || (std::f64::consts::PI * l / lam.abs()) > 8.0 { retune_crystal_theta(&spdc) } else { None };
+      match trimmed {
+        Some(t) => {
+          spdc = t;
+          ctx.count("c05/long-period/angle-trimmed");
+        }
+        None => ctx.count("c05/long-period/untrimmed"),
+      }
+      ctx.count(if lam.abs() > l { "c05/long-period/longer-than-crystal" } else { "c05/long-period/shorter-than-crystal" });
+    }
     let v = view(&spdc).unwrap();
     let ws0 = raw_w(spdc.signal.frequency());
     let wi0 = raw_w(spdc.idler.frequency());
@@ -1814,14 +2015,23 @@ fn c05_cases(ctx: &mut Ctx) {
         continue;
       }
     };
-    if x0.abs() > 0.5 {
-      ctx.count("c05/not-phase-matched-by-optimum");
+    if x0.abs() > if long_period { 8.0 } else { 0.5 } {
+      ctx.count(if long_period { "c05/long-period/phase-matched-point-too-far" } else { "c05/not-phase-matched-by-optimum" });
       continue;
     }
     // the statement does not single out an integrator: default Simpson-50, finer Simpson rules
     // (≥ 130 requested divisions take math::simpson's parallel branch) and Gauss–Legendre
     // (GaussKonrod is left out: at perfect phase matching the integrand is constant in z and quad-rs panics — D40 of C12)
-    let integ = match ctx.rng.below(13) {
+    let amp_scale = {
+      let (wp2, ws2, wi2) = (v.wpx * v.wpy, v.sig[3] * v.sig[4], v.idl[3] * v.idl[4]);
+      4.0 / (wp2 * ws2 + wp2 * wi2 + ws2 * wi2)
+    };
+    let integ = match ctx.rng.below(15) {
+      // adaptive Simpson stopped by a SHALLOW max_depth, tolerance relative to the amplitude scale 4/Σ or absolute
+      13 | 14 => Integrator::AdaptiveSimpson {
+        tolerance: if ctx.rng.coin() { 1e-9 * amp_scale } else { 1e-6 },
+        max_depth: *ctx.rng.pick(&SHALLOW_DEPTHS),
+      },
       9 => Integrator::Simpson { divs: *ctx.rng.pick(&[51usize, 128, 129, 131]) },
       10 => Integrator::GaussLegendre { degree: *ctx.rng.pick(&[20usize, 60]) },
       11 => Integrator::ClenshawCurtis { tolerance: *ctx.rng.pick(&[1e-6, 1e3]) },
@@ -1884,10 +2094,17 @@ fn c05_cases(ctx: &mut Ctx) {
         continue;
       }
     };
-    // the point of perfect phase matching on the line: two Newton steps from the centre
+    // the point of perfect phase matching on the line: Newton steps (fixed slope) from the centre until |Δk_z L/2| < 1e-7
     let mut t0 = -x0 / slope;
-    if let Some(xa) = xt(t0) {
-      t0 -= xa / slope;
+    for _ in 0..8 {
+      match xt(t0) {
+        Some(xa) if xa.abs() >= 1e-7 => t0 -= xa / slope,
+        _ => break,
+      }
+    }
+    if !matches!(xt(t0), Some(xa) if xa.abs() < 1e-4) {
+      ctx.count("c05/phase-matched-point-not-found-on-line");
+      continue;
     }
     let reach = 4.0 * std::f64::consts::PI / slope.abs();
     let span = reach + t0.abs();
@@ -1979,6 +2196,11 @@ fn c05_cases(ctx: &mut Ctx) {
           }
         };
         let ratio = p / peak;
+        // distance from ±4π in units of the adaptive rule's aliasing window (1440·tol/|PM₀|)^¼ (D81); large elsewhere
+        let alias_ratio = match integ {
+          Integrator::AdaptiveSimpson { tolerance, .. } => ((xv.abs() - 4.0 * std::f64::consts::PI).abs() / (1440.0 * tolerance / peak).powf(0.25)).min(1e6),
+          _ => 1e6,
+        };
         let target = sinc_abs(xv);
         let dev = (ratio - target).abs();
         ctx.count(&format!("c05/lobe/{}", ((xv.abs() / std::f64::consts::PI).floor() as usize).min(4)));
@@ -1989,7 +2211,7 @@ fn c05_cases(ctx: &mut Ctx) {
           "C05.sinc",
           dev < 1e-3,
           &format!("sinc/ratio/{}", iclass),
-          &format!("dev={:e} ratio={:e} sinc={:e} x_dk={:e} x_abs={:.9} peak={:e} walkoff_x={:e} eta={:e} ws={:.17e} wi={:.17e} integ={} {}", dev, ratio, target, xv, xv.abs(), peak, x, eta, ws, wi, iname, desc),
+          &format!("dev={:e} ratio={:e} sinc={:e} x_dk={:e} x_abs={:.9} alias_ratio={:.6} peak={:e} walkoff_x={:e} eta={:e} ws={:.17e} wi={:.17e} integ={} {}", dev, ratio, target, xv, xv.abs(), alias_ratio, peak, x, eta, ws, wi, iname, desc),
         );
       }
     } else {
@@ -2027,6 +2249,10 @@ fn c05_cases(ctx: &mut Ctx) {
 }
 
 pub fn run(ctx: &mut Ctx) {
+  if std::env::var("VH_PANIC_MSG").is_ok() {
+    // debugging aid: print the message of every caught panic to stderr
+    std::panic::set_hook(Box::new(|info| eprintln!("PANIC {}", info)));
+  }
   let mode = ctx.extra.first().cloned().unwrap_or_else(|| "k".to_string());
   match mode.as_str() {
     "k" => k_cases(ctx),
